@@ -18,7 +18,7 @@ from .env import VERIF_DIR
 RESERVED = {'abstract', 'asset', 'associations', 'extends', 'include',
             'category', 'info', 'let', 'E', 'C', 'I', 'A'}
 
-TYPE_NAMES = ['Host', 'Net', 'App', 'Data', 'User', 'Cred', 'Zone', 'Svc']
+TYPE_NAMES = ['Host', 'Net', 'App', 'Data', 'User', 'Cred', 'Zone', 'Svc', 'Disk', 'Proc']
 STEP_NAMES = ['access', 'read', 'deny', 'own', 'probe', 'use']
 DEF_NAMES = ['hardened', 'patched', 'mfa']
 EX_NAMES = ['hasPeer', 'noPeer']
